@@ -55,8 +55,8 @@ Print Assumptions C15_deinit_site.
 (* S3' (no switch): the release calls at the end of a phase function *)
 Theorem C15_final_deinit : forall T T' p tbl tbl',
   NoDup (map fst T) -> NoDup (map fst T') -> table_equiv T T' -> lequiv tbl tbl' ->
-  final_deinit T p tbl = final_deinit T' p tbl'.
-Proof. exact final_deinit_ext. Qed.
+  final_deinit exit_deinit_all T p tbl = final_deinit exit_deinit_all T' p tbl'.
+Proof. exact (final_deinit_ext exit_deinit_all). Qed.
 Print Assumptions C15_final_deinit.
 
 (* S4: the Python generator's phase functions and transition table *)
